@@ -481,6 +481,8 @@ pub fn id_suffix(style: u8) -> String {
         2 => "/s".to_string(),
         3 => " \u{e9}\u{4e16}".to_string(),
         4 => "_".to_string() + &"w".repeat(300),
+        // a trailing separator (style 6 puts one in front instead, see universe_styled)
+        5 => ".".to_string(),
         _ => String::new(),
     }
 }
@@ -489,6 +491,9 @@ pub fn universe_styled(style: u8) -> Universe {
     let mut u = universe_plain();
     for id in u.ids.iter_mut() {
         id.push_str(&sfx);
+        if style == 6 {
+            id.insert(0, '.');
+        }
     }
     u
 }
